@@ -22,7 +22,7 @@ Qed.
 
 (* the tree printer and the DAG printer spell every operator alike *)
 Theorem smt_printers_agree : forall n, smtprinter_nary_symbol n = smtdagprinter_nary_symbol n.
-Proof. apply node_type_case. vm_compute. repeat constructor. Qed.
+Proof. apply by_table_opt. vm_compute. reflexivity. Qed.
 
 (* dispatch: every operator by the method of its own name; rotations and extensions share one
    method each; ALGEBRAIC_CONSTANT is not printable (walk_error); the methods that write a leaf,
@@ -37,9 +37,9 @@ Definition smt_expected (wrapper : string) (n : node_type) : string :=
   if nt_in smt_wrapped n then wrapper ++ ":" ++ base else base.
 
 Theorem smtprinter_dispatch_matches_source : forall n, smtprinter_dispatch n = smt_expected "write_annotations" n.
-Proof. apply node_type_case. vm_compute. repeat constructor. Qed.
+Proof. apply by_table. vm_compute. reflexivity. Qed.
 Theorem smtdagprinter_dispatch_matches_source : forall n, smtdagprinter_dispatch n = smt_expected "write_annotations_dag" n.
-Proof. apply node_type_case. vm_compute. repeat constructor. Qed.
+Proof. apply by_table. vm_compute. reflexivity. Qed.
 
 (* the model writes a head for exactly the operators that are not leaves, quantifiers or array values *)
 Theorem op_head_defined : forall o,
